@@ -66,6 +66,35 @@ impl tokio::io::AsyncRead for PieceReader {
     }
 }
 
+/// The same for the synchronous decoders: a `Read + Seek` source whose reads return fewer bytes than asked for (a pipe, a
+/// network file system, a range reader).  `read` may do that; only `read_exact` promises the full count.
+pub struct ShortSeekReader {
+    cur: Cursor<Vec<u8>>,
+    sizes: Vec<usize>,
+    k: usize,
+}
+
+impl ShortSeekReader {
+    pub fn new(data: &[u8], sizes: &[usize]) -> Self {
+        Self { cur: Cursor::new(data.to_vec()), sizes: sizes.to_vec(), k: 0 }
+    }
+}
+
+impl std::io::Read for ShortSeekReader {
+    fn read(&mut self, buf: &mut [u8]) -> std::io::Result<usize> {
+        let sz = self.sizes[self.k % self.sizes.len()].max(1);
+        self.k += 1;
+        let n = buf.len().min(sz);
+        std::io::Read::read(&mut self.cur, &mut buf[..n])
+    }
+}
+
+impl std::io::Seek for ShortSeekReader {
+    fn seek(&mut self, pos: std::io::SeekFrom) -> std::io::Result<u64> {
+        std::io::Seek::seek(&mut self.cur, pos)
+    }
+}
+
 const PIECES: [&[usize]; 4] = [&[usize::MAX], &[1, 2, 3, 5, 8, 13, 21, 64, 4096], &[7], &[3, 1000, 1, 1, 70000]];
 
 fn pieces_stream(data: &[u8], sizes: &[usize]) -> impl futures::Stream<Item = Result<bytes::Bytes, std::io::Error>> + Unpin {
@@ -565,6 +594,15 @@ fn rt_one(t: &mut Tables, chunks: &[Vec<u8>], req: u8, rng: &mut StdRng, cnt: &m
         let ids = cut_ids(t, &all, &c2.info.unpacked_chunk_offsets);
         hemit("XbAll", format!("\"ids\":{},\"nbytes\":{}", json!(ids), all.len()));
     }
+    // ... and from a source that returns short reads (footer and contents)
+    for pieces in [PIECES[1], PIECES[2], PIECES[3]] {
+        if let Some(c3) = guarded!("deserialize", CasObject::deserialize(&mut ShortSeekReader::new(&bytes, pieces))) {
+            if let Some(all) = guarded!("get_all_bytes", c3.get_all_bytes(&mut ShortSeekReader::new(&bytes, pieces))) {
+                let ids = cut_ids(t, &all, &c3.info.unpacked_chunk_offsets);
+                hemit("XbAll", format!("\"ids\":{},\"nbytes\":{},\"reader\":\"short\"", json!(ids), all.len()));
+            }
+        }
+    }
 
     // chunk ranges
     let mut ranges = vec![];
@@ -592,10 +630,16 @@ fn rt_one(t: &mut Tables, chunks: &[Vec<u8>], req: u8, rng: &mut StdRng, cnt: &m
         ranges.sort();
         ranges.dedup();
     }
-    for &(a, b) in &ranges {
+    for (ri, &(a, b)) in ranges.iter().enumerate() {
         let (a32, b32) = (a as u32, b as u32);
         let Some(off) = guarded!("get_byte_offset", c2.get_byte_offset(a32, b32)) else { continue };
-        let Some(got) = guarded!("get_bytes_by_chunk_range", c2.get_bytes_by_chunk_range(&mut Cursor::new(&bytes), a32, b32)) else { continue };
+        // every second range is read from a source that returns short reads
+        let got = if ri % 2 == 1 {
+            guarded!("get_bytes_by_chunk_range", c2.get_bytes_by_chunk_range(&mut ShortSeekReader::new(&bytes, PIECES[1 + (ri / 2) % 3]), a32, b32))
+        } else {
+            guarded!("get_bytes_by_chunk_range", c2.get_bytes_by_chunk_range(&mut Cursor::new(&bytes), a32, b32))
+        };
+        let Some(got) = got else { continue };
         let Some(ulen) = guarded!("uncompressed_range_length", c2.uncompressed_range_length(a32, b32)) else { continue };
         let mut ends = vec![];
         let mut acc = 0u32;
